@@ -76,6 +76,7 @@ func genC08(t *rapid.T) C08Case {
 	o.ResetEmpty = true
 	o.Sloppy = chancePct(t, 15, "sloppy")
 	a := GenApp(t, o)
+	genFirst(t, a, 20, true)
 	h := GenHistory(t, a, HistOpts{MaxLen: 14, Junk: true, Long: true, Refused: true})
 	// repeat a random input many times (browse past the end, pile up descents)
 	if chancePct(t, 30, "repeat") && len(h) > 1 {
@@ -106,9 +107,21 @@ func runC08(c C08Case) (v *Violation, f c08Features, discard string) {
 	}
 	defer cleanup()
 	s := app.NewSession(app.NewShared(c.App), c.Mode, storage)
+	var waiting []byte // pending bytecode of a session that is waiting for input
 	for i, in := range c.Inputs {
 		st := s.Request([]byte(in))
 		f.requests++
+		// "can still be continued": input the engine refuses does not take away what a
+		// waiting session has left to run
+		if !inputAccepted(string(in)) && st.Panic == "" && len(waiting) > 0 && st.After != nil && len(st.After.Code) == 0 {
+			return viol("refused-input-ends-session", "request %d: the refused input %s left the waiting session without pending bytecode (%d bytes before): it cannot be continued", i, describeVal(string(in)), len(waiting)), f, ""
+		}
+		if inputAccepted(string(in)) {
+			waiting = nil
+			if st.Cont && st.ExecErr == "" && st.After != nil {
+				waiting = st.After.Code
+			}
+		}
 		if st.Exceeded {
 			return nil, f, "move-budget"
 		}
@@ -141,7 +154,10 @@ func runC08(c C08Case) (v *Violation, f c08Features, discard string) {
 			if tolerate("F-C07-1") && st.After != nil && snapshotHasInvalidUTF8(st.After) {
 				return nil, f, "known:F-C07-1"
 			}
-			if bad := snapshotRoundTrip(s); bad != nil {
+			// a request that the first function's run declined (blocked session) is not saved:
+			// the engine's objects then need not equal the stored session
+			saved := !(c.App.Cfg.First != nil && !st.Cont)
+			if bad := snapshotRoundTrip(s, saved); bad != nil {
 				bad.Msg = fmt.Sprintf("after request %d (input %s): %s", i, describeVal(string(in)), bad.Msg)
 				return bad, f, ""
 			}
@@ -203,7 +219,7 @@ func saveAndCompare(s *app.Session) *Violation {
 	if err := pe.Save(s.Cfg.SessionId); err != nil {
 		return viol("save-failed", "the session cannot be saved: %v", err)
 	}
-	return snapshotRoundTrip(s)
+	return snapshotRoundTrip(s, true)
 }
 
 // --- example applications -------------------------------------------------------
